@@ -408,4 +408,54 @@ ALIASH = Harness(
     stubs=PREC.stubs,
 )
 
-HARNESSES = [PREC, SVC, SPLIT, ALIASH]
+
+# ------------------------------------------------------------------------------ P-nofiles
+NOFILE_SETS = [
+    [],
+    [("component.type", "mod:Comp"), ("component.greeting", "hello"), ("max_threads", 7)],
+    [("services.web.component.type", "mod:Web"), ("services.worker.component.type", "mod:Worker"), ("max_threads", 2)],
+    [("services.web.component.type", "mod:Web"), ("services.web.max_threads", 4), ("logging.version", 1)],
+]
+
+
+def nofiles_params(tier):
+    return [P("sets", 0, 3), P("opt", 0, 2), P("env", 0, 2)]
+
+
+@guard
+def nofiles_fn(a, tier):
+    """`asphalt run` without any configuration file: the empty sequence of files merges to {} and the --set overrides / service ladder apply as usual."""
+    which, opt, env = pick(a["sets"], 4), pick(a["opt"], 3), pick(a["env"], 3)
+    sets_val = NOFILE_SETS[which]
+    sets_txt = [f"{k}={v}" for k, v in sets_val]
+    service, env_service = [None, "web", "nope"][opt], [None, "worker", "web"][env]
+    code, calls, text, exc = invoke([], sets_txt, service, env_service)
+    exp = expected_call([], [(k, v) for k, v in sets_val], service, env_service)
+    summary = {"files": "none", "overrides": sets_txt, "--service": service, "ASPHALT_SERVICE": env_service}
+    if exp[0] == "error":
+        if code == 0 or calls:
+            return FAIL("nofiles:error-expected-but-started", f"code={code} calls={calls}", summary)
+        return OK(summary, True)
+    if code != 0 or len(calls) != 1:
+        return FAIL(f"nofiles:not-started:code={code}:sets={which}", f"{text} {exc!r}", summary)
+    (args, kwargs) = calls[0]
+    got = ("call", args[0], args[1], kwargs)
+    if got != exp:
+        return FAIL(f"nofiles:wrong-configuration:sets={which}", f"got {got} expected {exp}", summary)
+    return OK(summary, True)
+
+
+NOFILES = Harness(
+    prop="C16",
+    name="P-nofiles",
+    fn=nofiles_fn,
+    params=nofiles_params,
+    cube=lambda tier: 0,
+    title="no configuration file at all: everything comes from --set",
+    bound_text=lambda tier: "zero files x --set lists {none; a top-level component; two services; one service with a top-level option} x --service {unset, web, nope} x ASPHALT_SERVICE {unset, worker, web}",
+    oracle="reference pipeline with an empty list of files: same configuration, same service ladder, same errors",
+    outside="-",
+    stubs=PREC.stubs,
+)
+
+HARNESSES = [PREC, SVC, SPLIT, ALIASH, NOFILES]
